@@ -11,9 +11,9 @@ Transcribed by hand from
   /repo/routing/http/client/client.go     FindProviders / FindPeers: local filtering of the decoded response
 The iterator combinators are NOT re-modelled: the pipelines are C43 shapes (`C43.Shape`, `C43.readAll`)
 over record indices, with "nil result" encoded as a negative index.
-Parameters (external libraries): `codeOf : String → Nat` = `multiaddr.ProtocolWithName(name).Code`
-(0 for an unknown name), and the protocol codes of each address (`addr.Protocols()`); both are supplied by
-the harness as it observed them. `strings.EqualFold` / `strings.ToLower` are modelled for ASCII.
+Parameters (external libraries), bundled in `Env`: `codeOf` = `multiaddr.ProtocolWithName(name).Code`
+(0 for an unknown name), `fold` = `strings.EqualFold`, `lower` = `strings.ToLower` (full Unicode in Go), and the
+protocol codes of each address (`addr.Protocols()`); all are supplied by the harness as it observed them.
 Core-only (no Mathlib): imported by the line-protocol driver.
 -/
 namespace C42
@@ -32,12 +32,24 @@ structure Rec where
   protocols : List String
   deriving DecidableEq, Repr
 
-/-- `ParseFilter`: "" ↦ nil, else lower-case and split at commas -/
-def parseFilter (param : String) : List String :=
-  if param == "" then [] else param.toLower.splitOn ","
+/-- The external string / table functions the filter code calls — parameters of the model, supplied by the
+harness as it observed them (theorems hold for every `Env`):
+`codeOf` = `multiaddr.ProtocolWithName(name).Code` (0 for an unknown name),
+`fold` = `strings.EqualFold` (Unicode simple case folding), `lower` = `strings.ToLower` (Unicode). -/
+structure Env where
+  codeOf : String → Nat
+  fold : String → String → Bool
+  lower : String → String
 
-/-- `strings.EqualFold` (ASCII) -/
+/-- `strings.EqualFold` restricted to ASCII (used by the examples) -/
 def eqFold (a b : String) : Bool := a.toLower == b.toLower
+
+/-- an `Env` for ASCII-only strings -/
+def asciiEnv (codeOf : String → Nat) : Env := { codeOf := codeOf, fold := eqFold, lower := String.toLower }
+
+/-- `ParseFilter`: "" ↦ nil, else lower-case and split at commas -/
+def parseFilter (E : Env) (param : String) : List String :=
+  if param == "" then [] else (E.lower param).splitOn ","
 
 /-- `containsProtocol` -/
 def containsProtocol : List Nat → Nat → Bool
@@ -50,11 +62,11 @@ def containsAny (protocols : List Nat) : List Nat → Bool
   | f :: r => if containsProtocol protocols f then true else containsAny protocols r
 
 /-- the first loop of applyAddrFilter: (positiveFilters, negativeFilters) as protocol codes -/
-def splitFilters (codeOf : String → Nat) : List String → List Nat × List Nat
+def splitFilters (E : Env) : List String → List Nat × List Nat
   | [] => ([], [])
   | f :: r =>
-    let (pos, neg) := splitFilters codeOf r
-    if f.startsWith "!" then (pos, codeOf (f.drop 1).toString :: neg) else (codeOf f :: pos, neg)
+    let (pos, neg) := splitFilters E r
+    if f.startsWith "!" then (pos, E.codeOf (f.drop 1).toString :: neg) else (E.codeOf f :: pos, neg)
 
 /-- the second loop of applyAddrFilter -/
 def addrLoop (pos neg : List Nat) : List Addr → List Addr
@@ -65,59 +77,59 @@ def addrLoop (pos neg : List Nat) : List Addr → List Addr
     else addrLoop pos neg r
 
 /-- `applyAddrFilter` -/
-def applyAddrFilter (codeOf : String → Nat) (addrs : List Addr) (filterAddrs : List String) : List Addr :=
+def applyAddrFilter (E : Env) (addrs : List Addr) (filterAddrs : List String) : List Addr :=
   if filterAddrs.isEmpty then addrs
   else
-    let (pos, neg) := splitFilters codeOf filterAddrs
+    let (pos, neg) := splitFilters E filterAddrs
     addrLoop pos neg addrs
 
 /-- the inner loop of protocolsAllowed -/
-def anyFold (f : String) : List String → Bool
+def anyFold (E : Env) (f : String) : List String → Bool
   | [] => false
-  | p :: r => if eqFold p f then true else anyFold f r
+  | p :: r => if E.fold p f then true else anyFold E f r
 
 /-- `protocolsAllowed` -/
-def protocolsAllowed (peerProtocols : List String) (filterProtocols : List String) : Bool :=
+def protocolsAllowed (E : Env) (peerProtocols : List String) (filterProtocols : List String) : Bool :=
   if filterProtocols.isEmpty then true
   else
     let rec go : List String → Bool
       | [] => false
       | f :: r =>
         if f == "unknown" && peerProtocols.isEmpty then true
-        else if anyFold f peerProtocols then true
+        else if anyFold E f peerProtocols then true
         else go r
     go filterProtocols
 
 /-- `applyFilters` (`none` = nil: the record is omitted) -/
-def applyFilters (codeOf : String → Nat) (r : Rec) (filterAddrs filterProtocols : List String) : Option Rec :=
+def applyFilters (E : Env) (r : Rec) (filterAddrs filterProtocols : List String) : Option Rec :=
   if filterAddrs.isEmpty && filterProtocols.isEmpty then some r
-  else if !protocolsAllowed r.protocols filterProtocols then none
+  else if !protocolsAllowed E r.protocols filterProtocols then none
   else if filterAddrs.isEmpty || (r.addrs.isEmpty && filterAddrs.contains "unknown") then some r
   else
-    let filtered := applyAddrFilter codeOf r.addrs filterAddrs
+    let filtered := applyAddrFilter E r.addrs filterAddrs
     if filtered.isEmpty then none else some { r with addrs := filtered }
 
 /-- the mapping function of ApplyFiltersToIter on one (non-error) record: a bitswap-schema record is first
 converted with FromBitswapRecord (schema peer; `Protocols = [Protocol]` is already how `Rec` stores it) -/
-def applyRec (codeOf : String → Nat) (fa fp : List String) (r : Rec) : Option Rec :=
-  applyFilters codeOf { r with schema := 0 } fa fp
+def applyRec (E : Env) (fa fp : List String) (r : Rec) : Option Rec :=
+  applyFilters E { r with schema := 0 } fa fp
 
 /-! ## pipelines as C43 iterators over record indices (`none` in `recs` = an error result of the source) -/
 
 /-- the `iter.Map` function of ApplyFiltersToIter on indices: a dropped record (or an error result, which the
 following `iter.Filter` drops as well) becomes -1 -/
-def mapIdx (codeOf : String → Nat) (fa fp : List String) (recs : List (Option Rec)) (i : Int) : Int :=
+def mapIdx (E : Env) (fa fp : List String) (recs : List (Option Rec)) (i : Int) : Int :=
   match recs[i.toNat]? with
-  | some (some r) => if i ≥ 0 ∧ (applyRec codeOf fa fp r).isSome then i else -1
+  | some (some r) => if i ≥ 0 ∧ (applyRec E fa fp r).isSome then i else -1
   | _ => -1
 
 /-- findProviders{JSON,NDJSON}: `Limit(Filter(Map(src)))` -/
-def provShape (codeOf : String → Nat) (fa fp : List String) (recs : List (Option Rec)) (lim : Int) : C43.Shape :=
-  .limit lim (.filter (fun i => i ≥ 0) (.map (mapIdx codeOf fa fp recs) .src))
+def provShape (E : Env) (fa fp : List String) (recs : List (Option Rec)) (lim : Int) : C43.Shape :=
+  .limit lim (.filter (fun i => i ≥ 0) (.map (mapIdx E fa fp recs) .src))
 
 /-- findPeers{JSON,NDJSON}: ApplyFiltersToPeerRecordIter wraps the same pipeline between two conversions -/
-def peersShape (codeOf : String → Nat) (fa fp : List String) (recs : List (Option Rec)) (lim : Int) : C43.Shape :=
-  .limit lim (.map id (.filter (fun i => i ≥ 0) (.map (mapIdx codeOf fa fp recs) (.map id .src))))
+def peersShape (E : Env) (fa fp : List String) (recs : List (Option Rec)) (lim : Int) : C43.Shape :=
+  .limit lim (.map id (.filter (fun i => i ≥ 0) (.map (mapIdx E fa fp recs) (.map id .src))))
 
 /-- the source iterator yields the positions k, k+1, … of the router's results -/
 def idxFrom {α : Type} : Nat → List α → List Int
@@ -125,24 +137,105 @@ def idxFrom {α : Type} : Nat → List α → List Int
   | k, _ :: r => (k : Int) :: idxFrom (k + 1) r
 
 /-- what the handler writes: the records behind the indices the pipeline yields (ReadAll / the NDJSON loop) -/
-def serve (codeOf : String → Nat) (sh : C43.Shape) (fa fp : List String) (recs : List (Option Rec)) : List Rec :=
+def serve (E : Env) (sh : C43.Shape) (fa fp : List String) (recs : List (Option Rec)) : List Rec :=
   ((C43.readAll sh (C43.fresh (idxFrom 0 recs) sh)).2).filterMap fun i =>
     match recs[i.toNat]? with
-    | some (some r) => applyRec codeOf fa fp r
+    | some (some r) => applyRec E fa fp r
     | _ => none
 
-def serveProviders (codeOf : String → Nat) (fa fp : List String) (recs : List (Option Rec)) (lim : Int) : List Rec :=
-  serve codeOf (provShape codeOf fa fp recs lim) fa fp recs
+def serveProviders (E : Env) (fa fp : List String) (recs : List (Option Rec)) (lim : Int) : List Rec :=
+  serve E (provShape E fa fp recs lim) fa fp recs
 
-def servePeers (codeOf : String → Nat) (fa fp : List String) (recs : List (Option Rec)) (lim : Int) : List Rec :=
-  serve codeOf (peersShape codeOf fa fp recs lim) fa fp recs
+def servePeers (E : Env) (fa fp : List String) (recs : List (Option Rec)) (lim : Int) : List Rec :=
+  serve E (peersShape E fa fp recs lim) fa fp recs
 
 /-- the client keeps its filter values lower-cased (fix commit "routing/http/client: local filtering is
 case-sensitive …"; it also sorts them, which `c42_filter_order` shows to be irrelevant) -/
-def normalizeFilter (filter : List String) : List String := filter.map String.toLower
+def normalizeFilter (E : Env) (filter : List String) : List String := filter.map E.lower
 
 /-- the client's local filtering of the decoded response with its own filter lists -/
-def clientFilter (codeOf : String → Nat) (fa fp : List String) (resp : List Rec) : List Rec :=
-  resp.filterMap (applyRec codeOf fa fp)
+def clientFilter (E : Env) (fa fp : List String) (resp : List Rec) : List Rec :=
+  resp.filterMap (applyRec E fa fp)
+
+/-! ## the HTTP handlers: content negotiation, per-media-type limits, IPNS GET / PUT decisions -/
+
+/-- what `mime.ParseMediaType` makes of one comma-separated element of an Accept header (parameter) -/
+inductive MT where
+  | json | ndjson | wildcard | other
+  | bad            -- ParseMediaType returns an error
+  deriving DecidableEq, Repr
+
+inductive Media where
+  | json | ndjson
+  deriving DecidableEq, Repr
+
+/-- `detectResponseType`: `none` = 400. `accepts = []` ⇔ no Accept header. -/
+def detectResponseType (disableNDJSON : Bool) (accepts : List MT) : Option Media :=
+  if accepts.isEmpty then some .json
+  else
+    let rec go (supportsNDJSON supportsJSON : Bool) : List MT → Option Media
+      | [] =>
+        if supportsNDJSON && !disableNDJSON then some .ndjson
+        else if supportsJSON then some .json
+        else none                      -- "no supported content types"
+      | .bad :: _ => none              -- "unable to parse Accept header"
+      | .json :: r => go supportsNDJSON true r
+      | .wildcard :: r => go supportsNDJSON true r
+      | .ndjson :: r => go true supportsJSON r
+      | .other :: r => go supportsNDJSON supportsJSON r
+    go false false accepts
+
+structure SrvCfg where
+  recordsLimit : Int
+  streamingRecordsLimit : Int
+  disableNDJSON : Bool
+
+/-- findProviders / findPeers: 400 on a bad Accept header, else 200 with the media type chosen and the records
+of the pipeline run with THAT media type's limit (`peers` selects the findPeers pipeline). -/
+def findHandler (E : Env) (cfg : SrvCfg) (peers : Bool) (accepts : List MT) (faParam fpParam : String)
+    (recs : List (Option Rec)) : Nat × Option (Media × List Rec) :=
+  match detectResponseType cfg.disableNDJSON accepts with
+  | none => (400, none)
+  | some m =>
+    let lim := match m with
+      | .ndjson => cfg.streamingRecordsLimit
+      | .json => cfg.recordsLimit
+    let fa := parseFilter E faParam
+    let fp := parseFilter E fpParam
+    (200, some (m, if peers then servePeers E fa fp recs lim else serveProviders E fa fp recs lim))
+
+/-- facts about a PUT /routing/v1/ipns/{cid} request, as the handler establishes them one after the other -/
+structure PutReq where
+  ctOk : Bool          -- Content-Type contains application/vnd.ipfs.ipns-record
+  cidOk : Bool         -- cid.Decode succeeds
+  nameOk : Bool        -- ipns.NameFromCid succeeds
+  unmarshalOk : Bool   -- ipns.UnmarshalRecord of the (size-limited) body succeeds
+  valid : Bool         -- ipns.ValidateWithName(record, name) succeeds
+  routerOk : Bool      -- the delegate's PutIPNS succeeds
+
+/-- `PutIPNS`: status code, and whether the record reached the router -/
+def putStatus (r : PutReq) : Nat × Bool :=
+  if !r.ctOk then (406, false)
+  else if !r.cidOk then (400, false)
+  else if !r.nameOk then (400, false)
+  else if !r.unmarshalOk then (400, false)
+  else if !r.valid then (400, false)
+  else if !r.routerOk then (500, true)   -- the router was called and failed
+  else (200, true)
+
+inductive Lookup where
+  | found | notFound | error
+  deriving DecidableEq, Repr
+
+/-- `GetIPNS`: status code and whether the record bytes are the body. `acceptOk`: no Accept header, or it
+contains */* or the IPNS record media type. Not found = 200 with a text/plain body (IPIP-513). -/
+def getStatus (acceptOk cidOk nameOk : Bool) (l : Lookup) : Nat × Bool :=
+  if !acceptOk then (406, false)
+  else if !cidOk then (400, false)
+  else if !nameOk then (400, false)
+  else match l with
+    | .found => (200, true)
+    | .notFound => (200, false)
+    | .error => (500, false)
 
 end C42
